@@ -5,9 +5,10 @@ C17 Model, part 2 — headers-first tracking (light version):
   blockchain/chain.go    connectBestChain (extend tip / side chain / reorganize to more work)
 over a fixed block tree (`P` = parent function as in Spec, root 0 = genesis), cumulative work
 `W`, and a set of blocks `bad` whose contents fail connect-time validation (their headers are
-fine).  The block side covers what the correspondence generator produces: valid blocks anywhere,
-and invalid blocks only where they extend the current tip (a re-organisation onto a branch that
-contains an invalid block answers `unsupported`; that part of the state machine is C02's).
+fine).  The block side covers every delivery-only history: duplicates, orphans, extend-tip, side
+chain, re-organisation including branches with invalid or known-invalid blocks (C02's `ChainCore`
+models the same code with the header entries inside one index; the driver runs both models and
+flags any disagreement).  Not modelled: the orphan pool bound (100) and the one-hour expiry.
 Core-only.
 -/
 import BV.C17.Spec
@@ -16,7 +17,7 @@ open BV.C17
 
 inductive Res
   | main | side | orphan
-  | dup | prevUnknown | invalidAncestor | knownInvalid | badBlock | unsupported
+  | dup | prevUnknown | invalidAncestor | knownInvalid | badBlock
   deriving Repr, DecidableEq
 
 def Res.isErr : Res → Bool
@@ -71,7 +72,13 @@ def stepHeader (e : Env) (b : BState) (h : HState) (n : Nat) : HState × Res :=
 def isValidHeader (e : Env) (b : BState) (h : HState) (n : Nat) : Bool :=
   inIndex b h n && (Spec.pathUp e.P h.best).contains n && !b.knownInvalid n
 
-/-- `maybeAcceptBlock` + `connectBestChain` -/
+/-- nodes of `n`'s parent walk that are not on the best chain, `n` first (what
+    `getReorganizeNodes` walks) -/
+def attachList (e : Env) (b : BState) (n : Nat) : List Nat :=
+  (Spec.pathUp e.P n).takeWhile (fun a => !(Spec.pathUp e.P b.tip).contains a)
+
+/-- `maybeAcceptBlock` + `connectBestChain` (+ `getReorganizeNodes`, `reorganizeChain` /
+    `verifyReorganizationValidity` at the index level) -/
 def accept (e : Env) (b : BState) (n : Nat) : BState × Res :=
   let p := e.parent n
   if b.knownInvalid p then (b, .invalidAncestor)
@@ -82,29 +89,47 @@ def accept (e : Env) (b : BState) (n : Nat) : BState × Res :=
       else ({ b with tip := n }, .main)
     else if e.W n ≤ e.W b.tip then (b, .side)
     else
-      let attach := (Spec.pathUp e.P n).takeWhile (fun a => !(Spec.pathUp e.P b.tip).contains a)
-      if attach.all (fun a => !e.bad a && !b.knownInvalid a) then ({ b with tip := n }, .main)
-      else (b, .unsupported)
+      let attach := attachList e b n
+      -- getReorganizeNodes: the walk from `n` towards the fork stops at a known-invalid node;
+      -- the nodes above it are marked invalidAncestor and both lists come back empty, on which
+      -- reorganizeChain succeeds without moving the tip (and the block is reported as main chain)
+      let good := attach.takeWhile (fun a => !b.knownInvalid a)
+      if good.length < attach.length then ({ b with invAnc := good ++ b.invAnc }, .main)
+      else
+        -- verification, fork child first: the first block that fails is marked failed, the rest of
+        -- the list invalidAncestor; nothing else changes
+        let order := attach.reverse
+        match order.find? e.bad with
+        | none => ({ b with tip := n }, .main)
+        | some x =>
+          let rest := (order.dropWhile (fun a => a != x)).drop 1
+          ({ b with failed := x :: b.failed, invAnc := rest ++ b.invAnc }, .badBlock)
 
-/-- `processOrphans`: breadth first, arrival order -/
-def flush (e : Env) : Nat → BState → List Nat → BState
-  | 0, b, _ => b
-  | _+1, b, [] => b
-  | f+1, b, q :: rest =>
+/-- `processOrphans`: breadth first, arrival order; a rejected orphan does not stop the others, the
+    first rule error is reported -/
+def flush (e : Env) : Nat → BState → List Nat → Option Res → BState × Option Res
+  | 0, b, _, err => (b, err)
+  | _+1, b, [], err => (b, err)
+  | f+1, b, q :: rest, err =>
     let kids := b.orphans.filter (fun k => e.parent k == q)
-    let r := kids.foldl (fun (acc : BState × List Nat) k =>
+    let r := kids.foldl (fun (acc : BState × List Nat × Option Res) k =>
       let b1 := { acc.1 with orphans := acc.1.orphans.erase k }
       let (b2, res) := accept e b1 k
-      (b2, if res.isErr then acc.2 else acc.2 ++ [k])) (b, [])
-    flush e f r.1 (rest ++ r.2)
+      if res.isErr then (b2, acc.2.1, match acc.2.2 with | none => some res | some x => some x)
+      else (b2, acc.2.1 ++ [k], acc.2.2)) (b, [], err)
+    flush e f r.1 (rest ++ r.2.1) r.2.2
 
-/-- `ProcessBlock` for a block that passes `checkBlockSanity` -/
+/-- `ProcessBlock` for a block that passes `checkBlockSanity` (orphan pool bound and 1 h expiry not
+    modelled) -/
 def stepBlock (e : Env) (b : BState) (n : Nat) : BState × Res :=
   if b.data.contains n || b.orphans.contains n then (b, .dup)
   else if !b.data.contains (e.parent n) then ({ b with orphans := b.orphans ++ [n] }, .orphan)
   else
     let (b1, r) := accept e b n
-    if r.isErr then (b1, r) else (flush e (b1.orphans.length + 2) b1 [n], r)
+    if r.isErr then (b1, r)
+    else
+      let (b2, err) := flush e (b1.orphans.length + 2) b1 [n] none
+      (b2, match err with | some x => x | none => r)
 
 /-- `BestChainHeaderForkHeight`: the fork point between the best chain and the best header chain -/
 def forkNode (e : Env) (s : BState) (h : HState) : Option Nat := Spec.lca e.P s.tip h.best
@@ -122,6 +147,27 @@ def chainTips (e : Env) (depth : Nat → Nat) (nodes : List Nat) (b : BState) (h
                   else if b.data.contains x then 3 else 0
     let fork := match Spec.lca e.P b.tip x with | some f => depth f | none => 0
     (x, status, depth x - fork))
+
+/-- `GetOrphanRoot`: follow parents while they are in the orphan pool -/
+def orphanRoot (e : Env) (b : BState) : Nat → Nat → Nat
+  | 0, n => n
+  | f+1, n =>
+    if b.orphans.contains n then
+      let p := e.parent n
+      if b.orphans.contains p then orphanRoot e b f p else n
+    else n
+
+/-- `HaveBlock`: stored or in the orphan pool -/
+def haveBlock (b : BState) (n : Nat) : Bool := b.data.contains n || b.orphans.contains n
+
+/-- `HeaderHeightByHash` succeeds iff the node is in the index and on the best-header chain -/
+def headerKnownOnBest (e : Env) (b : BState) (h : HState) (n : Nat) : Bool :=
+  inIndex b h n && (Spec.pathUp e.P h.best).contains n
+
+/-- a restart (close, `blockchain.New` on the same database): header-only index entries and the
+    orphan pool are not persisted, the best header is reset to the best chain tip -/
+def restartB (b : BState) : BState := { b with orphans := [] }
+def restartH (b : BState) : HState := { hdrIdx := [], accepted := [], best := b.tip }
 
 inductive Op
   | header (n : Nat)
